@@ -369,6 +369,8 @@ fn exec_toks(t: &[&str]) -> Option<String> {
             Some(out)
         }
         ("opt", op) => crate::opt::exec_opt(op, &t[2..]),
+        ("pair", op) => crate::state::exec_pair(op, &t[2..]),
+        ("state", op) => crate::state::exec_state(op, &t[2..]),
         ("tables", "group") => {
             let raw = t.get(2).copied().unwrap_or("");
             let name = if let Some(h) = raw.strip_prefix("hex:") { unshex(h)? } else { raw.to_string() };
